@@ -6,6 +6,7 @@
 #include <sys/time.h>
 #include <unistd.h>
 #include <set>
+#include <algorithm>
 
 using namespace ace_time;
 using namespace verif;
@@ -66,19 +67,31 @@ static std::string answer(const TimeZone& tz, int op, acetime_t t) {
   return "?";
 }
 
-// argument pool: mid-year of every year 1998..2051, a few Jan-1 instants, the sentinel
 static std::vector<acetime_t> g_args; static std::vector<std::string> g_argNames;
+// The supported years come from the zone data itself (ZoneContext): startYear-1 .. untilYear inclusive.
+static int g_rangeLo = 1999, g_rangeHi = 2050;
+static void set_range_from_db() {
+  g_rangeLo = zonedbx::kZoneContext.startYear - 1; g_rangeHi = zonedbx::kZoneContext.untilYear;
+  if (zonedb::kZoneContext.startYear - 1 > g_rangeLo) g_rangeLo = zonedb::kZoneContext.startYear - 1;   // judge only where both agree
+  if (zonedb::kZoneContext.untilYear < g_rangeHi) g_rangeHi = zonedb::kZoneContext.untilYear;
+}
+static int g_outLo = 1998, g_outHi = 2051;   // definitely outside both databases
+static bool arg_in_range(size_t ai) {
+  if (g_args[ai] == LocalDate::kInvalidEpochSeconds) return false;
+  Civil c = civil_from_seconds(g_args[ai]); return c.y >= g_rangeLo && c.y <= g_rangeHi;
+}
+static bool arg_out_of_range(size_t ai) {
+  if (g_args[ai] == LocalDate::kInvalidEpochSeconds) return true;
+  Civil c = civil_from_seconds(g_args[ai]); return c.y <= g_outLo || c.y >= g_outHi;
+}
+
+// argument pool: mid-year of every year 1998..2051, a few Jan-1 instants, the sentinel
 static void build_args() {
-  for (int y = 1998; y <= 2051; y++) { g_args.push_back((acetime_t) (days_from_civil(y, 7, 2) * 86400 + 43200)); char b[32]; snprintf(b, sizeof b, "%d-07-02", y); g_argNames.push_back(b); }
+  for (int y = g_outLo; y <= g_outHi && y <= 2066; y++) { g_args.push_back((acetime_t) (days_from_civil(y, 7, 2) * 86400 + 43200)); char b[32]; snprintf(b, sizeof b, "%d-07-02", y); g_argNames.push_back(b); }
   for (int y : {2000, 2025, 2050}) { g_args.push_back((acetime_t) (days_from_civil(y, 1, 1) * 86400)); char b[32]; snprintf(b, sizeof b, "%d-01-01T00:00", y); g_argNames.push_back(b); }
   g_args.push_back((acetime_t) (days_from_civil(2009, 12, 31) * 86400 + 86399)); g_argNames.push_back("2009-12-31T23:59:59");
   { acetime_t inv = LocalDate::kInvalidEpochSeconds; g_args.push_back(inv); } g_argNames.push_back("SENTINEL");
 }
-static bool arg_in_range(size_t ai) {   // zone data covers 1999..2050 inclusive (startYear-1 .. untilYear)
-  if (g_args[ai] == LocalDate::kInvalidEpochSeconds) return false;
-  Civil c = civil_from_seconds(g_args[ai]); return c.y >= 1999 && c.y <= 2050;
-}
-
 // --------------------------------------------------------------------------- zone access by (kind, index)
 struct ZoneRef { int kind; uint16_t idx; };   // kind 0 basic, 1 extended
 static const char* zoneName(ZoneRef z) { return z.kind ? zonedbx::kZoneRegistry[z.idx]->name : zonedb::kZoneRegistry[z.idx]->name; }
@@ -106,7 +119,7 @@ static void pairs_zone(ZoneRef z, bool checkShadow) {
   for (int oi = 0; oi < 4; oi++) for (size_t ai = 0; ai < na; ai++) {
     STEP("shadow zone=%s %s(%s)", zoneName(z), kOpNames[ops[oi]], g_argNames[ai].c_str());
     sh[oi * na + ai] = shadow_answer(z, ops[oi], g_args[ai]);
-    if (!arg_in_range(ai) && !is_error_answer(ops[oi], sh[oi * na + ai])) {
+    if (arg_out_of_range(ai) && !is_error_answer(ops[oi], sh[oi * na + ai])) {
       report("c09:out-of-range-not-error", "a fresh time zone answered an out-of-range argument with a non-error value", z, std::string(kOpNames[ops[oi]]) + "(" + g_argNames[ai] + ")", sh[oi * na + ai], "error value");
     }
     if (arg_in_range(ai) && is_error_answer(ops[oi], sh[oi * na + ai])) {
@@ -172,7 +185,7 @@ static void shared_random(Rng& rng, long long steps, bool checkShadow) {
         report(PROP + key, "a time zone sharing its processor with other zones answers differently from a fresh one", refs[w], hist, got, it->second);
         break;
       }
-      if (!arg_in_range(ai) && op != OP_PRINT && op != OP_SHORT && !is_error_answer(op == OP_ZDT ? OP_OFFSET : op, got)) {
+      if (arg_out_of_range(ai) && op != OP_PRINT && op != OP_SHORT && !is_error_answer(op == OP_ZDT ? OP_OFFSET : op, got)) {
         report("c09:out-of-range-not-error", "out-of-range argument answered with a non-error value after a history", refs[w], hist, got, "error value");
       }
     }
@@ -241,7 +254,7 @@ static void managers(Rng& rng, long long steps, bool checkShadow) {
 // --------------------------------------------------------------------------- C09: sequences up to length 4 over argument classes
 static void sequences_zone(ZoneRef z, int maxlen) {
   // argument classes: valid, below range, above range, sentinel
-  const acetime_t cls[4] = {(acetime_t) (days_from_civil(2021, 3, 14) * 86400 + 7200), (acetime_t) (days_from_civil(1998, 7, 2) * 86400), (acetime_t) (days_from_civil(2051, 7, 2) * 86400), LocalDate::kInvalidEpochSeconds};
+  const acetime_t cls[4] = {(acetime_t) (days_from_civil((g_rangeLo + g_rangeHi) / 2, 3, 14) * 86400 + 7200), (acetime_t) (days_from_civil(g_outLo, 7, 2) * 86400), (acetime_t) (days_from_civil(g_outHi, 7, 2) * 86400), LocalDate::kInvalidEpochSeconds};
   const char* cn[4] = {"valid", "below", "above", "sentinel"};
   const int ops[5] = {OP_OFFSET, OP_DELTA, OP_ABBREV, OP_LOCAL, OP_PRINT};
   int alphabet = 20;   // 4 classes x 5 ops
@@ -462,6 +475,9 @@ int main(int argc, char** argv) {
   std::string mode = a.get("mode");
   PROP = a.get("prop", "c08");
   arm();
+  set_range_from_db();
+  g_outLo = std::min(zonedb::kZoneContext.startYear, zonedbx::kZoneContext.startYear) - 2;
+  g_outHi = std::max(zonedb::kZoneContext.untilYear, zonedbx::kZoneContext.untilYear) + 1;
   build_args();
   int shard = a.shard(), nsh = a.nshards();
   Rng rng(a.num("seed", 0) * 977 + shard + 11);
